@@ -379,12 +379,39 @@ def e5d(ctx):
     ctx.floor("E5d", n, 1, "same-node forwarding handlers of JSON sequence formatters")
 
 
+def e10b(ctx):
+    m = ctx.model
+    ctx.rule("E10b", "whether a sequence is rendered through its edit's sub-edits is decided by structure alone (the node is an "
+                     "edited node and its edit is a sequence edit), never by the edit's cost: zero-cost changes exist (a null or "
+                     "an empty string added to a list of scalars), and a cost test there prints the list without any mark")
+    q = m.need_class("SequenceFormatter")
+    f = m.method(q, "print_SequenceNode")
+    n = 0
+    for i in walk_no_nested(f.node):
+        if isinstance(i, ast.If) and any(isinstance(c, ast.Call) and isinstance(c.func, ast.Attribute) and c.func.attr == "edits"
+                                         for s_ in i.body for c in ast.walk(s_)):
+            n += 1
+            calls = [c for c in ast.walk(i.test) if isinstance(c, ast.Call)]
+            foreign = [c for c in calls if call_name(c) != "isinstance"]
+            if foreign:
+                ctx.violation("E10b", f.file, "SequenceFormatter.print_SequenceNode", i.test, "sub-edits chosen by structure",
+                              f"the branch that renders the sub-edits is additionally guarded by `{norm(foreign[0], 40)}`: an edit of cost 0 is not "
+                              f"'no change' ([1, 2, null] vs [1, 2] costs 0), so such a list is printed as unchanged and the second document "
+                              f"cannot be read back")
+            else:
+                ctx.proved("E10b", f.file, "SequenceFormatter.print_SequenceNode", i.test, "sub-edits chosen by structure", f"`{norm(i.test, 80)}`")
+    ctx.floor("E10b", n, 1, "sub-edit branches in print_SequenceNode")
+
+
 def run(ctx):
     from . import c01
     c01.r01d(ctx)     # the script the marks are drawn from accounts for every pair of a keyed mapping
     c01.r01a(ctx)     # ... and for every element of a positional list edit
     c01.r01b(ctx)     # ... and an ordered-list edit trims, aligns and re-emits every element exactly once
     e10(ctx)
+    e10b(ctx)
+    from . import c02
+    c02.r02c3(ctx)    # a scalar distance of 0 for different texts prints one value without marks
     e9_json(ctx)
     e5d(ctx)
     ctx.assume("that the rendered text actually parses back to the two documents is a property of output values over all "
